@@ -12,7 +12,7 @@ declare -A PROP=(
  ["store generated ids in their intercepted form"]="C01"
  ["Collection.Delete honours WithWriteTime"]="C04"
  ["include filter forwards changes"]="C08"
- ["PullID subscribes before it returns"]="-"
+ ["PullID subscribes before it returns"]="C03"
  ["ExecuteFast and ExecuteRace no longer leak"]="C17"
  ["Execute with no members does not panic"]="C17"
  ["electric DeleteMode with allow-missing"]="C19"
